@@ -10,7 +10,7 @@ HOME = os.environ.get("VERIF_HOME", "/verif")
 SEEDED = "/verif/seeded"
 REL = {"C01": ["C01", "C05", "C06", "C16"], "C02": ["C02", "C14", "C03", "C09"], "C03": ["C03", "C04", "C05"], "C04": ["C04", "C03"],
        "C05": ["C05", "C01", "C03"], "C06": ["C06", "C10", "C01", "C09"], "C07": ["C07", "C11", "C08"], "C08": ["C08", "C07"],
-       "C09": ["C09", "C10"], "C10": ["C10", "C06", "C09"], "C11": ["C11", "C07"], "C12": ["C12"], "C13": ["C13", "C10"],
+       "C09": ["C09", "C10"], "C10": ["C10", "C06", "C09", "C13"], "C11": ["C11", "C07"], "C12": ["C12"], "C13": ["C13", "C10"],
        "C14": ["C14", "C02"], "C15": ["C15"], "C16": ["C16", "C01", "C02"], "C17": ["C17", "C06", "C07"]}
 
 
